@@ -1,8 +1,8 @@
 (* Properties_C16.v — C16: I/O failures are reported, never swallowed.
    Statements only; proofs in FaultProof.v (writer side) and TruncProof.v
-   (reader side, added when it lands). *)
+   (reader side). *)
 From Coq Require Import List ZArith.
-Require Import Tok CborEnc JsonEnc Writer FaultProof.
+Require Import Tok TokGrammar CborEnc CborDec CborParse JsonEnc JsonDec JsonParse Writer FaultProof TruncProof.
 Import ListNotations.
 Open Scope Z_scope.
 
@@ -33,3 +33,27 @@ Proof. exact cbor_no_fault_unchanged. Qed.
 Example C16_example :
   cbor_write_faulty (WPlan 2 false WErr) [Tok (ArrOpen 1) None; Tok (Str [97]) None; Tok ArrClose None] = WReported 2.
 Proof. vm_compute. reflexivity. Qed.
+
+(* Reader side: an input cut short anywhere strictly inside an item is an
+   end-of-input error, never a value and never a shorter value. *)
+Theorem C16_cbor_truncated_input_is_eof_error : forall c bs n rest k,
+  parse_item c bs = POk n rest -> (k < length bs - length rest)%nat ->
+  exists e toks a, dec_run c (firstn k bs) = DFail e toks a /\ eof_class e.
+Proof. exact cbor_truncation. Qed.
+Print Assumptions C16_cbor_truncated_input_is_eof_error.
+
+(* JSON: a bare top-level number has no terminator (its prefixes are numbers too); every other item,
+   cut anywhere inside, fails — with an end-of-input error, except when the cut falls right after a
+   number text that is not representable on its own (1234567890123456789012 before its ".5"), which
+   is reported as a malformed number: still an error, never a value. *)
+Theorem C16_json_truncated_input_is_error : forall bs n rest k,
+  jparse_item true bs = POk n rest -> not_bare_number n -> (k < length bs - length rest)%nat ->
+  exists e toks, jdec_run (firstn k bs) = JDFail e toks /\
+    (eof_class e \/ (e = EMalformed /\ ends_in_unrepresentable_number (firstn k bs))).
+Proof. exact json_truncation_general. Qed.
+Theorem C16_json_truncated_input_is_eof_error : forall bs n rest k,
+  jparse_item true bs = POk n rest -> not_bare_number n -> (k < length bs - length rest)%nat ->
+  ~ ends_in_unrepresentable_number (firstn k bs) ->
+  exists e toks, jdec_run (firstn k bs) = JDFail e toks /\ eof_class e.
+Proof. exact json_truncation_eof. Qed.
+Print Assumptions C16_json_truncated_input_is_error.
